@@ -69,7 +69,7 @@ def check_function(m, b, names, u, t, res, auto):
     for nn in range(0, k):
         try:
             c = m.count(h, nn)
-        except ValueError:
+        except Exception:  # noqa: refused (the property does not fix the exception type)
             continue
         raise Viol('count#raises:nvars-below-support', f'tt={t} n={nn}: returned {c}')
     res.count('count-checked')
